@@ -23,7 +23,7 @@ COMPONENTS = {"real": ["ECAgent.Core.SystemManager.execute_systems (activation p
               "stub": ["System.execute bodies are harness recorders"]}
 PROBES = ["fired_at_end", "silent_after_end", "negative_start", "end_before_start", "late_registration_out_of_phase",
           "late_registration_in_phase", "bad_n_rejected", "freq_beyond_horizon", "bare_execute_systems", "reregistered_after_removal", "registered_from_inside_a_step",
-          "registered_inside_multi_step_request", "str_subclass_id", "numpy_int_window", "falsy_systems", "system_failure_reached_the_caller"]
+          "registered_inside_multi_step_request", "str_subclass_id", "numpy_int_window", "falsy_systems", "system_failure_reached_the_caller", "systems_returning_values_from_execute"]
 TECHNIQUE = "deterministic simulation: model clock stepped through the real scheduler vs a reference timer wheel and a single-stepped twin model"
 LEVEL_TEXT = ("Seeded search over timer windows, registration instants and advance patterns; every firing of every timestep is "
               "compared with the predicate start<=t<=end and (t-start)%f==0, the clock with the count of accepted steps, "
